@@ -148,6 +148,35 @@ def format_dialect_entry_points(rng, rec):
         fam.dispose()
 
 
+def subclass_instance_case(rng, rec):
+    """an instance of a SUBCLASS in a member typed by its parent (a conforming value): every entry point writes the same document."""
+    from mashumaro.codecs.basic import BasicEncoder
+    fam = Family("c15s")
+    try:
+        mix = rng.random() < 0.6
+        base = "(DataClassDictMixin)" if mix else ""
+        fam.exec_src(f"@dataclass\nclass A{base}:\n    a: int = 0\n@dataclass\nclass B(A):\n    b: int = 1\n"
+                     "@dataclass\nclass H(DataClassDictMixin):\n    x: A\n    xs: List[A] = field(default_factory=list)\n    o: Optional[A] = None\n"
+                     "@dataclass\nclass HP:\n    x: A\n    xs: List[A] = field(default_factory=list)\n    o: Optional[A] = None\n")
+        m = fam.module
+        v = m.B(rng.randint(0, 9), rng.randint(0, 9))
+        docs = {"holder.to_dict": m.H(v, [v], v).to_dict(), "codec(holder)": BasicEncoder(m.H).encode(m.H(v, [v], v)), "codec(plain holder)": BasicEncoder(m.HP).encode(m.HP(v, [v], v)),
+                "codec(List)": {"x": BasicEncoder(eval("List[A]", m.__dict__)).encode([v])[0], "xs": BasicEncoder(eval("List[A]", m.__dict__)).encode([v]), "o": BasicEncoder(eval("Optional[A]", m.__dict__)).encode(v)}}
+        rec.evaluation()
+        first = docs["holder.to_dict"]
+        if all(d == first for d in docs.values()):
+            rec.count("encode_all_agree")
+            rec.count("subclass_instance_entry_points_agree")
+            rec.nontrivial(("subclass-instance", mix))
+        else:
+            rec.violation("subclass-instance:encode-entry-points-disagree", {"members_are_mixin_classes": mix, "documents": {k: common.short(d, 200) for k, d in docs.items()},
+                          "source": "".join(fam.sources[1:])}, {"scenario": "subclass-instance-in-parent-typed-member", "members_are_mixin_classes": mix,
+                                                                  "only_difference_is_subclass_members_dropped_by_codecs": all(
+                                                                      d == first or d == {"x": {"a": v.a}, "xs": [{"a": v.a}], "o": {"a": v.a}} for d in docs.values())})
+    finally:
+        fam.dispose()
+
+
 def two_hierarchies_in_one_field(rng, rec):
     """two tagged hierarchies with EQUAL discriminator settings and overlapping tags inside one member: the mixin method, codecs for
     the mixin class, for its plain twin and for the bare shape all keep the two registries apart."""
@@ -192,6 +221,8 @@ def run_case(seed, tier, rec, st):
         return format_dialect_entry_points(rng, rec)
     if rng.random() < 0.02:
         return two_hierarchies_in_one_field(rng, rec)
+    if rng.random() < 0.01:
+        return subclass_instance_case(rng, rec)
     fam = Family("c15", future_annotations=rng.random() < 0.1)
     other = None
     try:
